@@ -140,6 +140,11 @@ def run(ctx, rep):
             if not is_user_call(c_):
                 continue
             if LOOKUP.match(c_.name):
+                # a by-id lookup keyed by the id of an entity that an earlier lookup in this function returned repeats a successful lookup under &mut self: it cannot fail
+                key = b.expr_operand(c_.args[1]) if len(c_.args) > 1 else None
+                repeats = key is not None and any(x[0] == 'field' and x[2].endswith('_id') and any(y[0] == 'call' and LOOKUP.match(y[1]) for y in walk(x[1])) for x in walk(key))
+                if repeats and '_by_id' in c_.name:
+                    continue
                 for eb in failure_edge_blocks(b, c_):
                     out[eb] = 'failed lookup ' + short(c_.name)
             if c_.name.split('::')[-1] in ('ok_or', 'ok_or_else') and 'Option' in c_.name:
